@@ -468,7 +468,9 @@ def pool_shard(binp, seed, first, runs, tmpdir, idx, test="TestScenarios"):
     monp = os.path.join(tmpdir, f"poolmon_{test}_{idx}_{first}.txt")
     env = dict(os.environ, POOL_SEED=str(seed), POOL_FIRST=str(first), POOL_RUNS=str(runs), POOL_TRACE=trp, POOL_MON=monp)
     covflag = [f"-test.gocoverdir={os.environ['GOCOVERDIR']}"] if os.environ.get("VERIF_COVER") else []
-    p = subprocess.run([binp, "-test.run", f"^{test}$", "-test.timeout", "3600s", *covflag], env=env, stdout=subprocess.PIPE, stderr=subprocess.STDOUT, text=True)
+    # a scenario that hangs (e.g. a goroutine parked on a lock that a panicking call never released) must not hang the check
+    tmo = max(120, runs // 15) if test == "TestScenarios" else max(300, 3 * runs // 1000 + 120)
+    p = subprocess.run([binp, "-test.run", f"^{test}$", "-test.timeout", f"{tmo}s", *covflag], env=env, stdout=subprocess.PIPE, stderr=subprocess.STDOUT, text=True)
     o = {"accepted": 0, "rejected": [], "mon_ok": 0, "monfail": [], "crash": None, "progs": {}, "first_accept": None,
          "cmd": f"POOL_SEED={seed} POOL_FIRST={first} POOL_RUNS={runs} {binp} -test.run ^{test}$", "maxrunning": 0, "inconclusive": 0}
     last_run = None
@@ -532,7 +534,8 @@ def run_pool(res, binp, seed, total, tag, test="TestScenarios", shards=None):
         progs.update(o["progs"].values())
         if o["crash"]:
             k, tail = o["crash"]
-            msg = "goroutine panic / crash of the test binary" if "panic" in tail else "test binary failed"
+            msg = ("the scenario hangs (test binary timed out)" if "test timed out" in tail else
+                   "goroutine panic / crash of the test binary" if "panic" in tail else "test binary failed")
             res.add(Problem("monitor", f"{label}: {msg} while running scenario: {o['progs'].get(k)}", {"output_tail": tail, "replay_cmd": o["cmd"]},
                             key=(o["progs"].get(k) or "") + " crash"))
         for line in o["rejected"]:
